@@ -302,7 +302,7 @@ Proof.
 Qed.
 
 Lemma reset_cache_inv pk s c i : Inv c -> Inv (reset_cache pk s c i).
-Proof. intros HI. unfold reset_cache. apply reset_cache_list_inv, HI. Qed.
+Proof. intros HI. unfold reset_cache. apply reset_cache_list_inv, reset_cache_list_inv, HI. Qed.
 
 Lemma reset_cache1_nobj pk c i : nobj (reset_cache1 pk c i) = nobj c.
 Proof. unfold nobj, reset_cache1; cbn; apply upd_length. Qed.
@@ -455,7 +455,7 @@ Proof.
   - (* OCopy *) cbn [fst w_cs]. eapply cr_fresh; apply cr_refl.
   - (* OUnlink *)
     destruct (unlink s i) as [s1 [e|]]; cbn [fst w_cs]; [apply cr_refl|].
-    unfold reset_cache. eapply creach_reset_list; apply cr_refl.
+    unfold reset_cache. eapply creach_reset_list; eapply creach_reset_list; apply cr_refl.
   - (* OMix *)
     destruct energy.
     + rewrite lift_cs. cbn [w_cs].
@@ -478,11 +478,11 @@ Proof.
      match goal with |- context [if ?b then _ else _] => destruct b end; [apply cr_refl|];
      match goal with |- context [multi_rephase ?a1 ?a2 ?a3] => destruct (multi_rephase a1 a2 a3) as [s1 [e|]] end;
      cbn [fst w_cs]; [apply cr_refl|];
-     unfold reset_cache; eapply creach_reset_list; apply cr_refl).
+     unfold reset_cache; eapply creach_reset_list; eapply creach_reset_list; apply cr_refl).
   - (* OResetCache *)
-    cbn [fst w_cs]. unfold reset_cache. eapply creach_reset_list; apply cr_refl.
+    cbn [fst w_cs]. unfold reset_cache. eapply creach_reset_list; eapply creach_reset_list; apply cr_refl.
   - (* OSetPkg *)
-    cbn [fst w_cs]. unfold reset_cache. eapply creach_reset_list; apply cr_refl.
+    cbn [fst w_cs]. unfold reset_cache. eapply creach_reset_list; eapply creach_reset_list; apply cr_refl.
 Qed.
 
 Lemma step_inv w o :
@@ -790,7 +790,7 @@ Variable cvol : nat -> phase -> Q -> Q -> Q.
 Definition aligned (w : world) : Prop := length (objs (w_st w)) = length (cobjs (w_cs w)).
 
 Lemma reset_cache_len pk s c i : length (cobjs (reset_cache pk s c i)) = length (cobjs c).
-Proof. unfold reset_cache. apply (reset_cache_list_nobj pk). Qed.
+Proof. unfold reset_cache. change (length (cobjs ?x)) with (nobj x). rewrite !reset_cache_list_nobj. reflexivity. Qed.
 
 Lemma read_all_aligned l w : aligned w -> aligned (read_all calc1 calcx w l).
 Proof.
@@ -882,6 +882,7 @@ Proof.
     pose proof (reset_chem_nob (ensure_views s i) i) as U. pose proof (ensure_views_nob s i) as U2.
     unfold aligned, nob in *; cbn [fst w_st w_cs]. rewrite reset_cache_len. lia.
   - exact A.
+  - (* OSetHS *) apply lift_aligned; [destruct (_ && _)%bool; reflexivity | exact A].
 Qed.
 
 Lemma run_aligned ops w : aligned w -> aligned (run_world calc1 calcx shared_key cvol w ops).
@@ -1375,6 +1376,7 @@ Proof.
     apply reset_chem_sinv; [apply ensure_views_sinv; assumption|].
     pose proof (ensure_views_nob s i) as U. unfold nob in U. lia.
   - exact H.
+  - (* OSetHS *) destruct (_ && _)%bool; exact H.
 Qed.
 
 Lemma find_dc_spec t l e : find_dc t l = Some e -> In e l /\ d_tc e = t.
@@ -1453,4 +1455,110 @@ Proof.
   destruct (i_multi (imol_of s (o_imol (obj_of s i)))) eqn:M; cbn [d_ph d_data d_phases d_tc ps_multi ps_rows ps_phases ps_T ps_P hd].
   - f_equal. rewrite map_combine_map. reflexivity.
   - reflexivity.
+Qed.
+(* ---------- a freshly constructed MultiStream is in the state it was constructed with ---------- *)
+Lemma new_rows_spec vs s s' rs :
+  new_rows s vs = (s', rs) ->
+  rows s' = rows s ++ vs /\ rs = seq (length (rows s)) (length vs) /\
+  arrs s' = arrs s /\ phs s' = phs s /\ tcs s' = tcs s /\ imols s' = imols s /\ objs s' = objs s /\ dcs s' = dcs s.
+Proof.
+  revert s s' rs; induction vs as [|v t IH]; intros s s' rs H; cbn in H.
+  - injection H as <- <-. rewrite app_nil_r. repeat split.
+  - destruct (new_rows (set_rows s (rows s ++ [v])) t) as [s2 rs2] eqn:E.
+    injection H as <- <-. apply IH in E as (R & S & A & P & T & I & O & D). cbn in *.
+    rewrite R, <- app_assoc. cbn. rewrite S, app_length. cbn. rewrite Nat.add_1_r.
+    repeat split; assumption.
+Qed.
+
+Lemma map_nth_seq_app {A} (l vs : list A) d :
+  map (fun r => nth r (l ++ vs) d) (seq (length l) (length vs)) = vs.
+Proof.
+  revert l; induction vs as [|v t IH]; intros l; cbn; auto.
+  rewrite app_nth2 by lia. rewrite Nat.sub_diag. cbn. f_equal.
+  replace (l ++ v :: t) with ((l ++ [v]) ++ t) by (rewrite <- app_assoc; reflexivity).
+  replace (S (length l)) with (length (l ++ [v])) by (rewrite app_length; cbn; lia).
+  apply IH.
+Qed.
+
+Lemma new_multistream_pstate calc1 calcx sk cv w flows ps T P pkg :
+  length flows <> 1%nat ->
+  let w' := fst (step calc1 calcx sk cv w (ONew flows ps T P pkg)) in
+  pstate_of (w_st w') (length (objs (w_st w))) = mkps true ps flows T P /\
+  (length (objs (w_st w)) = length (cobjs (w_cs w)) ->
+   c_pkg (cobj_of (w_cs w') (length (objs (w_st w)))) = pkg /\
+   length (objs (w_st w')) = length (cobjs (w_cs w'))).
+Proof.
+  intros NL. destruct w as [s c]. unfold step. cbn [op_objs forallb]. unfold step_valid. cbn [w_st w_cs].
+  unfold new_tc.
+  assert (G : forall sa rs, new_rows (set_tcs s (tcs s ++ [(T, P)])) flows = (sa, rs) ->
+     let w' := fst (let (s2, ir) := (let (sb, a) := new_arr sa rs in new_imol sb (mkimol true a O ps)) in
+                    let (s3, n) := new_obj s2 (mkobj ir (length (tcs s)) [] true) in
+                    (mkw s3 (new_cobj_fresh c pkg), BIdx n)) in
+     pstate_of (w_st w') (length (objs s)) = mkps true ps flows T P /\
+     (length (objs s) = length (cobjs c) ->
+      c_pkg (cobj_of (w_cs w') (length (objs s))) = pkg /\ length (objs (w_st w')) = length (cobjs (w_cs w')))).
+  { intros sa rs E. apply new_rows_spec in E as (R & S & A & PH & TC & I & O & D). cbn in R, A, PH, TC, I, O, D.
+    unfold new_arr, new_imol, new_obj. cbn [fst snd w_st w_cs]. split.
+    - unfold pstate_of, obj_of, imol_of, tc_of, data_rows, arr, row. cbn. rewrite O, I, A, TC, R.
+      rewrite !nth_app_new. cbn. rewrite !nth_app_new. cbn. rewrite !nth_app_new.
+      f_equal. rewrite S. apply map_nth_seq_app.
+    - intros EL. split.
+      + unfold new_cobj_fresh, cobj_of. cbn. rewrite EL, nth_app_new. reflexivity.
+      + unfold new_cobj_fresh. cbn. rewrite O, !app_length. cbn. lia. }
+  destruct flows as [|d [|d2 t]]; [| exfalso; apply NL; reflexivity |].
+  - apply (G _ _ eq_refl).
+  - destruct (new_rows (set_tcs s (tcs s ++ [(T, P)])) (d :: d2 :: t)) as [sa rs] eqn:E.
+    apply (G sa rs eq_refl).
+Qed.
+
+(* the constructor call that re-creates a state *)
+Definition new_op_of (p : pstate) (pkg : nat) : op := ONew (ps_rows p) (ps_phases p) (ps_T p) (ps_P p) pkg.
+
+Lemma new_op_of_pstate calc1 calcx sk cv w p pkg :
+  (ps_multi p = true -> length (ps_rows p) <> 1%nat) ->
+  (ps_multi p = false -> exists d q, ps_rows p = [d] /\ ps_phases p = [q]) ->
+  let w' := fst (step calc1 calcx sk cv w (new_op_of p pkg)) in
+  pstate_of (w_st w') (length (objs (w_st w))) = p /\
+  (length (objs (w_st w)) = length (cobjs (w_cs w)) ->
+   c_pkg (cobj_of (w_cs w') (length (objs (w_st w)))) = pkg /\
+   length (objs (w_st w')) = length (cobjs (w_cs w'))).
+Proof.
+  intros HM HS. destruct p as [m phs rws T P]. unfold new_op_of. cbn [ps_rows ps_phases ps_T ps_P ps_multi] in *.
+  destruct m.
+  - apply new_multistream_pstate. apply HM. reflexivity.
+  - destruct (HS eq_refl) as (d & q & -> & ->). apply new_stream_pstate.
+Qed.
+
+Lemma pstate_single s i : ps_multi (pstate_of s i) = false ->
+  exists d q, ps_rows (pstate_of s i) = [d] /\ ps_phases (pstate_of s i) = [q].
+Proof.
+  unfold pstate_of, data_rows. cbn. intros M. rewrite M. eexists; eexists; split; reflexivity.
+Qed.
+
+Lemma equals_fresh_stream_any calc1 calcx cv :
+  calc1_respects calc1 -> calcx_respects calcx ->
+  forall ops i name flow nophase,
+    let w' := run_world calc1 calcx true cv w0 ops in
+    (i < length (cobjs (w_cs w')))%nat ->
+    let p := pstate_of (w_st w') i in
+    (ps_multi p = true -> length (ps_rows p) <> 1%nat) ->
+    let wn := fst (step calc1 calcx true cv w' (new_op_of p (c_pkg (cobj_of (w_cs w') i)))) in
+    rd_equiv (snd (get_property calc1 calcx w' i name flow nophase))
+             (snd (get_property calc1 calcx wn (length (objs (w_st w'))) name flow nophase)).
+Proof.
+  intros H1 Hx ops i name flow nophase w' Hi p HM wn.
+  assert (A : aligned w') by (apply run_aligned; reflexivity).
+  assert (I' : Inv calc1 calcx (w_cs w')) by exact (run_inv calc1 calcx true H1 Hx cv ops w0 (or_introl eq_refl) (Inv_cs0 calc1 calcx)).
+  pose proof (new_op_of_pstate calc1 calcx true cv w' p (c_pkg (cobj_of (w_cs w') i)) HM (pstate_single _ _)) as [NP NA].
+  destruct (NA A) as [NK NL]. fold wn in NP, NK, NL.
+  assert (In' : Inv calc1 calcx (w_cs wn)).
+  { unfold wn, new_op_of. rewrite step_new_cs. apply new_cobj_fresh_inv. exact I'. }
+  assert (Hn : (length (objs (w_st w')) < nobj (w_cs wn))%nat).
+  { unfold nobj, wn, new_op_of. rewrite step_new_cs. unfold new_cobj_fresh; cbn. rewrite app_length; cbn.
+    unfold aligned in A. lia. }
+  eapply rd_equiv_trans; [apply (get_property_spec calc1 calcx H1 Hx w' i); [exact I' | exact Hi]|].
+  apply rd_equiv_sym.
+  eapply rd_equiv_trans; [apply (get_property_spec calc1 calcx H1 Hx wn _); [exact In' | exact Hn]|].
+  rewrite (spec_read_pstate calc1 calcx wn (length (objs (w_st w'))) w' i); [apply rd_equiv_refl| |exact NK].
+  exact NP.
 Qed.
